@@ -56,7 +56,7 @@ def variants_for(pid):
 
 def run_selftest(pid, R=None, jobs=None, verbose=True):
     base = normalised(load_sources())
-    vs = variants_for(pid)
+    vs = [v for v in variants_for(pid) if v["kind"] != "skip"]
     tasks, skipped = [], []
     for v in vs:
         srcs = apply_variant(base, v)
